@@ -943,7 +943,22 @@ func reifyDuration(
 	// largest number of whole seconds representable as time.Duration
 	const maxSeconds = math.MaxInt64 / int64(time.Second)
 
-	switch v := val.(type) {
+	// a reference takes the referenced value with its type: a number means
+	// seconds, however many references lead to it
+	src := val
+	for hops := 0; hops < 32; hops++ {
+		dyn, ok := src.(*cfgDynamic)
+		if !ok {
+			break
+		}
+		next, err := dyn.getValue(opts.opts)
+		if err != nil || next == nil {
+			break
+		}
+		src = next
+	}
+
+	switch v := src.(type) {
 	case *cfgInt:
 		if v.i > maxSeconds || v.i < -maxSeconds {
 			err = ErrOverflow
@@ -967,7 +982,7 @@ func reifyDuration(
 		d, err = time.ParseDuration(v.s)
 	default:
 		var s string
-		s, err = val.toString(opts.opts)
+		s, err = src.toString(opts.opts)
 		if err != nil {
 			return reflect.Value{}, raiseInvalidDuration(val, err)
 		}
